@@ -120,6 +120,14 @@ def gen_case(ck, cap):
                 sizes = [len(l) for l in layers]
                 kw["max_layer_size_to_explore"] = rng.choice([10**6, 10**5, 1, 2, rng.choice(sizes), rng.choice(sizes) + 1, max(sizes), max(1, rng.choice(sizes) - 1)])
             queries.append([s, kw])
+        if rng.random() < 0.35:
+            # both limits changed in opposite directions between two calls on the same object (neither layer limit binds):
+            # the second call must work with the ball of ITS limits
+            big, small = rng.sample([10**6, 10**5, 5 * 10**4, 10**4 + 1], 2)
+            big, small = max(big, small), min(big, small)
+            d1 = rng.randint(1, max(1, ecc // 3))
+            far = [list(x) for l in layers[min(ecc, 2 * d1 + 1) :] for x in l] or orbit
+            queries = [[list(rng.choice(orbit)), {"max_layer_size_to_explore": big, "max_diameter": d1}], [list(rng.choice(far)), {"max_layer_size_to_explore": small, "max_diameter": rng.randint(d1 + 1, ecc + 1)}]] + queries[:2]
         return {"gd": gd.to_json(), "cfg": graphs.gen_cfg(rng, gd), "queries": queries}
     raise RuntimeError("no case")
 
